@@ -840,6 +840,7 @@ class XMLSchemaBase(XsdValidator, ElementPathMixin[Union[SchemaType, XsdElement]
         """ Clears the schema caches unloading components and schema node tree."""
         for attr in self._cached_properties():
             self.__dict__.pop(attr, None)
+        self.__dict__.pop('_validation_attempted', None)
 
     def build(self) -> None:
         """Builds the schema's XSD global maps."""
@@ -849,8 +850,20 @@ class XMLSchemaBase(XsdValidator, ElementPathMixin[Union[SchemaType, XsdElement]
     def built(self) -> bool:
         return self.maps.built
 
-    @cached_property
+    @property
     def validation_attempted(self) -> str:
+        built = self.maps.built
+        if built and '_validation_attempted' in self.__dict__:
+            return cast(str, self.__dict__['_validation_attempted'])
+
+        value = self._get_validation_attempted()
+        if built:
+            # Cache only a value computed on built maps: a value computed while
+            # another thread is building the maps would survive the build.
+            self.__dict__['_validation_attempted'] = value
+        return value
+
+    def _get_validation_attempted(self) -> str:
         if any(isinstance(t, tuple) and t[-1] is self
                for x in self.maps.global_maps.iter_staged() for t in x):
             return 'partial'
